@@ -185,6 +185,14 @@ def check_mem_a(run, repo, is_set):
         trs = [e for e in h.events if e.kind == 'translate']
         acc = [e for e in h.events if e.kind == ('write' if is_set else 'read')]
         nofault = B.AND(dom, B.NOT(fault_ref))
+        for e in trs + acc:
+            early = B.AND(B.AND(dom, fault_ref), e.cond)
+            if early != 0:
+                bad('alignment fault priority', 'MemA %s in a state that must take an alignment fault: the alignment check comes '
+                    'first in MemA_with_priv, so that an unaligned address which also fails translation (no region, no permission, '
+                    'invalid descriptor) reports an Alignment fault, not the translation / permission fault'
+                    % ('translates the address' if e.kind == 'translate' else 'accesses memory'), early)
+                break
         if len(trs) != 1 or len(acc) != 1:
             bad('translation / access count', 'expected one translation and one hub access, found %d / %d' % (len(trs), len(acc)))
         else:
